@@ -69,12 +69,19 @@ reg("C02",
 
 reg("C16",
     gen=lambda seed, tier: (P.gen_roundtrip_programs(G.Rng(seed + 16), N(tier, 120, 1500), big=N(tier, 0.03, 0.08)) +
-                            P.gen_coexist_programs(G.Rng(seed + 161), N(tier, 60, 600))),
-    monitors=[P.mon_roundtrip, P.mon_coexist],
+                            P.gen_coexist_programs(G.Rng(seed + 161), N(tier, 60, 600)) +
+                            P.gen_commit_programs(G.Rng(seed + 162), N(tier, 60, 600), big=N(tier, 0.03, 0.1)) +
+                            P.gen_size_matrix(G.Rng(seed + 163))),
+    monitors=[lambda rr: (P.mon_size_matrix(rr) if "matrix" in rr.prog.tags else
+                          P.mon_commit(rr) if "commit" in rr.prog.tags else
+                          P.mon_roundtrip(rr) + P.mon_coexist(rr)),
+              lambda rr: mon_content_valid(rr)],
     nontrivial=lambda rr: has(rr, ("write", "write_hash", "wcommit"), ("ok",)),
     rule="as C02; the returned integrity is compared with hashlib's digest; plus histories storing the SAME bytes under "
          "2-5 algorithms through mixed entry points: each address is the asked algorithm's digest whatever the cache holds, "
-         "all copies read back, and remove_hash of one algorithm's copy leaves the others present and readable")
+         "all copies read back, and remove_hash of one algorithm's copy leaves the others present and readable; plus the "
+         "commit programs and the declared-size matrix of C08 (declared integrity of another algorithm, short / overlong "
+         "streams through the mapped writers): after every program every file in the content area hashes to its address")
 
 reg("C05",
     gen=lambda seed, tier: (P.gen_history_programs(G.Rng(seed + 5), N(tier, 60, 600), maxlen=N(tier, 14, 40)) +
@@ -98,10 +105,12 @@ reg("C09",
     rule="as C05 plus remove_hash, remove_fully and clear; non-trivial = some removal succeeded")
 
 reg("C10",
-    gen=lambda seed, tier: P.gen_history_programs(G.Rng(seed + 10), N(tier, 60, 600), maxlen=N(tier, 14, 40)),
+    gen=lambda seed, tier: (P.gen_history_programs(G.Rng(seed + 10), N(tier, 40, 400), maxlen=N(tier, 14, 40)) +
+                            P.gen_history_programs(G.Rng(seed + 101), N(tier, 40, 400), maxlen=N(tier, 14, 40), full=True)),
     monitors=[P.mon_history, P.mon_list_agrees_with_lookup],
     nontrivial=lambda rr: has(rr, ("list",), ("ok",)),
-    rule="as C05; every listing is compared item by item with the lookups of all keys issued just before it")
+    rule="as C05 and C09 (histories with remove, remove_hash, remove_fully, clear over keys that share content); every "
+         "listing is compared item by item with the lookups of all keys issued just before it")
 
 reg("C20",
     gen=lambda seed, tier: (P.gen_hostile_state_programs(G.Rng(seed + 23), N(tier, 18, 36)) +
@@ -180,7 +189,9 @@ reg("C15",
     rule="programs over 4 hostile keys (path-like, '..', NUL, controls, case / normalisation variants, 4 KiB): writes, "
          "every read-only call, a copy, removals; the directories next to the cache and the cache itself are dumped "
          "before and after; in half of the programs one entry's content file is first torn / flipped / replaced / deleted, so "
-         "that the read-only calls run into verification failures - and must still leave the directory as it was")
+         "that the read-only calls run into verification failures - and must still leave the directory as it was; plus "
+         "errno injection at every syscall class of sync / async writes (the error and retry paths): under strace no "
+         "mutating system call of the operation names a path outside the scratch directory")
 
 
 # ---------------------------------------------------------------------------------------------
@@ -298,8 +309,9 @@ def gen_big_record_programs(seed, tier):
     return progs
 
 
-REGISTRY["C15"]["extra"] = lambda seed, tier, flavours: LG.leg_skeleton(
-    P.gen_confine_programs(G.Rng(seed + 151), N(tier, 6, 40)), flavours[0])
+REGISTRY["C15"]["extra"] = lambda seed, tier, flavours: merge(
+    LG.leg_skeleton(P.gen_confine_programs(G.Rng(seed + 151), N(tier, 6, 40)), flavours[0]),
+    LG.leg_fault_injection(LG.fault_cases_writes(G.Rng(seed + 152)), flavours[0], tier))
 REGISTRY["C15"]["rule"] += "; plus the strace leg: every mutating system call of every op (hostile keys) is compared with the model's call and any path outside the scratch cache directory is reported"
 
 
